@@ -138,6 +138,9 @@ class ProvWorld:
         directlyProvides(self.ob, *ifs(d))
 
 
+SEQ_SERIAL = [0]
+
+
 def realise(items, cw, flip):
     """nested TLC items -> nested Python arguments (tuples and lists
     alternate with depth so both sequence types are exercised)."""
@@ -148,7 +151,13 @@ def realise(items, cw, flip):
             out.append(cw.atom(it['i']))
         elif k == 1:
             inner = realise(it['s'], cw, not flip)
-            out.append(list(inner) if flip else tuple(inner))
+            SEQ_SERIAL[0] += 1
+            if SEQ_SERIAL[0] % 3 == 0:
+                # any iterable is flattened, also one that can be walked
+                # only once (an iterator, a generator)
+                out.append(iter(inner) if flip else (x for x in inner))
+            else:
+                out.append(list(inner) if flip else tuple(inner))
         elif k == 2:
             out.append(Declaration(*realise(it['s'], cw, flip)))
         else:
